@@ -136,7 +136,7 @@ pub struct TdMotor {
 impl Settable<TerminalData, E> for TdMotor {
     fn impl_set(&mut self, value: TerminalData) -> NothingOrError<E> {
         if let Some(k) = self.h.reject.get() {
-            return Err(Error::Other(k));
+            return Err(err_of(k));
         }
         self.h.log.borrow_mut().push(MotorEv::SetTd(value.to_val()));
         Ok(())
@@ -152,7 +152,7 @@ impl Updatable<E> for TdMotor {
     fn update(&mut self) -> NothingOrError<E> {
         self.h.log.borrow_mut().push(MotorEv::Update);
         if let Some(k) = self.h.update_err.get() {
-            return Err(Error::Other(k));
+            return Err(err_of(k));
         }
         self.update_following_data()
     }
@@ -165,7 +165,7 @@ pub struct FMotor {
 impl Settable<f32, E> for FMotor {
     fn impl_set(&mut self, value: f32) -> NothingOrError<E> {
         if let Some(k) = self.h.reject.get() {
-            return Err(Error::Other(k));
+            return Err(err_of(k));
         }
         self.h.log.borrow_mut().push(MotorEv::SetF(fbits(value)));
         Ok(())
@@ -181,7 +181,7 @@ impl Updatable<E> for FMotor {
     fn update(&mut self) -> NothingOrError<E> {
         self.h.log.borrow_mut().push(MotorEv::Update);
         if let Some(k) = self.h.update_err.get() {
-            return Err(Error::Other(k));
+            return Err(err_of(k));
         }
         self.update_following_data()
     }
@@ -224,7 +224,7 @@ impl Updatable<E> for EncInner {
             *self.cur.borrow_mut() = p;
         }
         match self.update_err.get() {
-            Some(k) => Err(Error::Other(k)),
+            Some(k) => Err(err_of(k)),
             None => Ok(()),
         }
     }
